@@ -73,6 +73,18 @@ CHECKS = {
    note="Trusted: the reference interpreter (sim/ref/interp.cpp, written from the manual for the generated subset; any disagreement on a fault-free run is itself reported), at most one effectful sub-expression per expression so evaluation order is unobservable, errors compared by class not message, cancel runs checked for invariants only. The cross-context form (a constant node written by one clone and read by another) is exercised by C14.",
    technique="deterministic simulation: seeded alias/mutation histories with fault points inside expressions, reference-interpreter (value semantics) oracle, unparse-before/after invariant",
    design="DESIGN.md section 4 (C05)"),
+ "C09": dict(
+   level="exploration",
+   text="Containers are driven as stateful objects through histories of up to 30 operations, each compiled and run as its own unit in one context so that a failed operation does not end the history: at, put, insert, delete, concat, count on a table of integers, a table of strings and a string, set@ / @k / count on a tuple, with positions from {-1, 0, 1, n-1, n, n+1, 2^32+1, 2^63-1, null} and arguments from {matching, decimal into an integer table, typed null of the element type, typed null of the mixable type, untyped null}; statically mismatching operations and forall bodies that mutate the traversed table are units that must be refused at compile time and change nothing; mutation attempts through copies and functions; fault points in argument position (receiver already evaluated), bloc_break. A vector/tuple reference model is compared operation by operation (printed size and elements, error class, final deep store); at every statement step every element must carry exactly its table's element type and every tuple its declaration.",
+   note="Trusted: the reference interpreter (sim/ref/interp.cpp, written from the manual for the generated subset; any disagreement on a fault-free run is itself reported), at most one failing or effectful sub-expression per expression so evaluation order is unobservable, errors compared by class not message, cancel runs checked for invariants only. Where the manual allows both a compile-time rejection and a run-time conversion (int/decimal mixing) the model follows the compiler's decision and checks what follows.",
+   technique="deterministic simulation: seeded container-operation histories (units that survive failures) with position/argument lattices and fault points, reference-model oracle, per-step uniformity invariant",
+   design="DESIGN.md section 4 (C09)"),
+ "C02": dict(
+   level="exploration",
+   text="The schedule is the schedule of compile units. The same statement list - generated programs plus statements that move the compile-time view of a variable (re-typed variables, '$' constrained names, iterators re-used after their loop, values from an opaque function, typed null declarations) - is fed as one unit (the reference), one statement at a time through the interactive parser, and in seeded groupings (every 2-way split enumerated in the thorough tier). Whenever the whole unit compiles and runs without error every grouping must give the same output, outcome and final variable store. At every statement step a symbol under an active type constraint ('$' name, loop iterator) must keep the major type of its value. Reported monitor without a schedule: for every top-level expression of the program and a catalogue of 140 operator/builtin/member expressions the type taken from the parser equals the type of the evaluated value unless opaque.",
+   note="Trusted: the whole-unit run is the reference (self-differential, no model). The static-vs-dynamic monitor samples expressions, it does not enumerate the operand-type matrix.",
+   technique="deterministic simulation: seeded compile-unit schedules (one unit / statement-at-a-time / groupings), self-differential oracle, per-step type-constraint invariant, static-vs-dynamic type monitor",
+   design="DESIGN.md section 4 (C02)"),
 }
 
 NOT_APPLICABLE = {
